@@ -426,6 +426,96 @@ def gen_layout():
 GENERATORS["Layout.lean"] = gen_layout
 
 
+# ----------------------------------------------------------------------------------------
+# boxcar.rs constants, par_sort.rs thresholds, and every atomic operation site (C09)
+
+ATOMIC_RE = re.compile(r"\.(load|store|fetch_add|fetch_sub|swap|compare_exchange(?:_weak)?)\(")
+
+
+def atomic_sites(rel):
+    """(file, enclosing fn, receiver expression, operation, orderings, occurrence index within the fn)"""
+    src = strip_comments(read(rel))
+    sites = []
+    # enclosing function by scanning `fn name` occurrences
+    fn_pos = [(m.start(), m.group(1)) for m in re.finditer(r"\bfn\s+([a-zA-Z_0-9]+)", src)]
+    per_fn = {}
+    for m in ATOMIC_RE.finditer(src):
+        op = m.group(1)
+        # arguments up to the matching parenthesis
+        depth, i = 1, m.end()
+        while depth and i < len(src):
+            depth += {"(": 1, ")": -1}.get(src[i], 0)
+            i += 1
+        args = " ".join(src[m.end():i - 1].split())
+        ords = re.findall(r"Ordering::(\w+)", args)
+        if not ords:
+            continue  # not an atomic (e.g. Vec::swap)
+        # receiver: the expression chain before the dot, last field name
+        pre = " ".join(src[max(0, m.start() - 200):m.start()].split())
+        recv = re.findall(r"([A-Za-z_][A-Za-z_0-9]*)\s*\)?$", pre)
+        recv = recv[0] if recv else "?"
+        fn = "?"
+        for pos, name in fn_pos:
+            if pos < m.start():
+                fn = name
+        k = per_fn.get((fn, recv, op), 0)
+        per_fn[(fn, recv, op)] = k + 1
+        sites.append((rel, fn, recv, op, ords, k))
+    return sites
+
+
+def gen_boxcar():
+    bsrc = read("src/boxcar.rs")
+    cs, allc = consts_of(bsrc, ["SKIP", "SKIP_BUCKET", "BUCKETS", "MAX_ENTRIES"])
+    psrc = read("src/par_sort.rs")
+    pnames = ["MAX_INSERTION", "MAX_SEQUENTIAL", "BLOCK", "MAX_STEPS", "SHORTEST_MEDIAN_OF_MEDIANS", "SHORTEST_SHIFTING", "MAX_SWAPS"]
+    pc, _ = consts_of(psrc, pnames)
+    # the index arithmetic of Location::of / bucket_len
+    b = strip_comments(bsrc)
+    need = [r"let skipped = index\.checked_add\(SKIP\)", r"let bucket = u32::BITS - skipped\.leading_zeros\(\);",
+            r"let bucket = bucket - \(SKIP_BUCKET \+ 1\);", r"let entry = skipped \^ bucket_len;", r"1 << \(bucket \+ SKIP_BUCKET\)",
+            r"self\.bucket_len - \(self\.bucket_len >> 3\)"]
+    for pat in need:
+        if not re.search(pat, b):
+            raise TranslateError(f"boxcar.rs: Location arithmetic changed shape ({pat})")
+    sites = []
+    for rel in ["src/boxcar.rs", "src/lib.rs", "src/worker.rs", "src/par_sort.rs"]:
+        sites += atomic_sites(rel)
+    out = ["/- GENERATED by translator/translate.py from src/{boxcar,lib,worker,par_sort}.rs — do not edit -/",
+           "namespace NucleoVerif.Gen", ""]
+    for n_ in ["SKIP", "SKIP_BUCKET", "BUCKETS", "MAX_ENTRIES"]:
+        out.append(f"def {n_} : Nat := {cs[n_]}")
+    out.append("")
+    for n_ in pnames:
+        out.append(f"def PS_{n_} : Nat := {pc[n_]}")
+    out.append("")
+    out.append("/-- memory orderings -/")
+    out.append("inductive MemOrd | relaxed | acquire | release | acqRel | seqCst")
+    out.append("deriving DecidableEq, Repr")
+    out.append("")
+    out.append("structure AtomicSite where")
+    out.append("  file : String\n  fn : String\n  recv : String\n  op : String\n  occ : Nat\n  ords : List MemOrd")
+    out.append("deriving DecidableEq, Repr")
+    out.append("")
+    omap = {"Relaxed": ".relaxed", "Acquire": ".acquire", "Release": ".release", "AcqRel": ".acqRel", "SeqCst": ".seqCst"}
+    out.append("/-- every atomic operation in the crate, with the orderings declared in the source -/")
+    out.append("def atomicSites : List AtomicSite := [")
+    rows = []
+    for rel, fn, recv, op, ords, k in sites:
+        for o in ords:
+            if o not in omap:
+                raise TranslateError(f"unknown ordering {o}")
+        rows.append(f'  ⟨"{rel}", "{fn}", "{recv}", "{op}", {k}, [{", ".join(omap[o] for o in ords)}]⟩')
+    out.append(",\n".join(rows))
+    out.append("]")
+    out.append("")
+    out.append("end NucleoVerif.Gen")
+    return "\n".join(out) + "\n"
+
+
+GENERATORS["Boxcar.lean"] = gen_boxcar
+
+
 def main():
     changed = []
     for name, fn in GENERATORS.items():
